@@ -566,14 +566,14 @@ func markDeletedAccessors(c *an.Ctx) {
 
 func markDeletedExceptions() map[string]string {
 	return map[string]string{
-		"lib/metaclient:(*Client).Databases": "hands the raw database map to the retention/TTL services, which test MarkDeleted per database themselves (checked: every caller reads MarkDeleted)",
+		"lib/metaclient:(*Client).Databases":               "hands the raw database map to the retention/TTL services, which test MarkDeleted per database themselves (checked: every caller reads MarkDeleted)",
 		metaPkg + ":(*Data).Database":                      "raw map lookup; GetDatabase is the guarded form (checked as an accessor of its own)",
 		metaPkg + ":(*DatabaseInfo).RetentionPolicy":       "raw map lookup (default-policy resolution); GetRetentionPolicy is the guarded form",
 		metaPkg + ":(*RetentionPolicyInfo).Measurement":    "raw versioned-name lookup; Data.Measurement / GetMeasurement are the guarded forms, CreateMeasurement needs the marked object to advance the version",
 		"lib/metaclient:(*Client).GetMeasurementInfoStore": "remote lookup: the meta service answers through the guarded Data.Measurement (side condition checked: Store.getMeasurementInfo calls Data.Measurement)",
 		"lib/metaclient:(*Client).RetryMeasurement":        "guarded Client.Measurement first, then the remote lookup above",
 		"lib/metaclient:(*Client).CreateRetentionPolicy":   "returns the policy it has just created (through the administrative Client.RetentionPolicy)",
-		"lib/metaclient:(*Client).RetentionPolicy":          "administrative lookup (revert-delete, alter, create shard group): tests the database flag, returns marked policies on purpose; the commands are re-validated by the meta service with the guarded Data.RetentionPolicy",
+		"lib/metaclient:(*Client).RetentionPolicy":         "administrative lookup (revert-delete, alter, create shard group): tests the database flag, returns marked policies on purpose; the commands are re-validated by the meta service with the guarded Data.RetentionPolicy",
 	}
 }
 
